@@ -16,7 +16,7 @@ class C01(Prop):
                    "after a full load of a trace with >= 2 profiler steps only 'rows are a subset of the image' is asserted here; which rows are kept is C12"]
 
     def gen_case(self, rng, k, tier):
-        return gen_load_case(rng, tier, "C01")
+        return gen_load_case(rng, tier, "C01", k)
 
     def observe(self, case):
         return observe_load(case, "C01")
